@@ -31,7 +31,7 @@ CFG = {
             "barrier, every request carrying unique markers in path, query, body and a header. The request-context slice "
             "also runs over HTTP/1.1-over-TLS (tag transport:tls): a second server with the same endpoints started with "
             "ConfigTls::AsBytes, a tokio-rustls client; sequential requests on one TLS connection and 2 / 6 concurrent "
-            "TLS connections; the peer port the handler sees must be the client socket's local port. A slow-client slice (tag transport:slow-client; own server and threads, beside the "
+            "TLS connections; the peer port the handler sees must be the client socket's local port. A deterministic large-scope slice (group large, tags large:<dimension>:<size>) pushes every size-like dimension across 15/16/17 .. 8191/8192/8193 (quick: a rotating third of the sizes per dimension plus the top one; thorough: all), 40 000, and 65535/65536/65537 (thorough: 1 MiB): bytes of a path segment / query value / form value / JSON string (plain, fully escaped, a 2-, 3- or 4-byte character straddling offsets 63|64, 255|256, 4095|4096), unknown / repeated / known query parameters (up to 1025 / 4097 / 33), wildcard elements (Vec<String>, Vec<enum>, Vec<Uuid>: 17, 257, 1025), JSON array elements, fields and nesting depth, leading zeros of a number for u8 / i64 / u128 / i128 at their extremes, raw and streamed body bytes, 257 (thorough 65537) requests on ONE keep-alive connection with the request-context clause on each, 64 / 65 / 257 connections at once in the isolation slice. Same model, spec and judge as the ordinary cases; long byte strings are written losslessly with the run-length operator rep. ABSTRACTIONS (the Coq VM cannot hold lists of 64 Ki elements): payloads of 65535 bytes and more are sent for real but judged by the specification alone on digests computed by the harness (length, first and last 32 bytes, FNV-1a-64 of every value sent and echoed: CLargeOk); of the 65537 keep-alive requests the harness compares every echo byte for byte and emits as Coq cases every request that differs plus the first and last 130 and every 256th. A slow-client slice (tag transport:slow-client; own server and threads, beside the "
             "rest of the run): for JSON, url-encoded, untyped, streaming and multipart bodies a valid body in two or three "
             "pieces with a silent pause of 5.5 / 10.5 / 31.5 s (thorough: also 61.5 / 121 s) in mid-body or between the "
             "complete header block and the first body byte; the echo must equal the bytes sent. Non-trivial: every "
